@@ -117,8 +117,8 @@ def replay_recip(chk, rs, c, variants):
     jm, im = c["ym"] // c["ay"], c["xm"] // c["ax"]
     rng = np.random.default_rng(seed() * 1000003 + hash(_cfg_key(c)) % 100000)
     for prof_kind, prec, src_kind in variants:
-        if c["an"] and prof_kind != "const":
-            prof_kind = "const"
+        if c["an"]:  # the analytic branch is meant for height-independent profiles: isotropic or anisotropic constants
+            prof_kind = "const_aniso" if prof_kind in ("mostm", "aniso") else "const"
         kw = rs.solver_args(c, prof_kind, prec)
         q = rs.source(c, src_kind, rng, j=rng.integers(c["ny"]), i=rng.integers(c["nx"]))
         try:
@@ -189,8 +189,8 @@ def replay_conserve(chk, rs, c, variants):
     rng = _rng(c)
     g = c["geom"]
     for prof_kind, prec, src_kind in variants:
-        if c["an"] and prof_kind != "const":
-            prof_kind = "const"
+        if c["an"]:  # the analytic branch is meant for height-independent profiles: isotropic or anisotropic constants
+            prof_kind = "const_aniso" if prof_kind in ("mostm", "aniso") else "const"
         kw = rs.solver_args(c, prof_kind, prec)
         z, prof = kw["z"], kw["profiles"]
         q = rs.source(c, src_kind, rng, j=rng.integers(c["ny"]), i=rng.integers(c["nx"]))
@@ -238,8 +238,8 @@ def replay_linear(chk, rs, c, variants):
         return
     rng = _rng(c)
     for prof_kind, prec, src_kind in variants:
-        if c["an"] and prof_kind != "const":
-            prof_kind = "const"
+        if c["an"]:  # the analytic branch is meant for height-independent profiles: isotropic or anisotropic constants
+            prof_kind = "const_aniso" if prof_kind in ("mostm", "aniso") else "const"
         kw = rs.solver_args(c, prof_kind, prec)
         q1 = rs.source(c, src_kind, rng, j=rng.integers(c["ny"]), i=rng.integers(c["nx"]))
         q2 = rs.source(c, "dense", rng)
@@ -296,8 +296,8 @@ def replay_translate(chk, rs, c, variants):
     dj, di = c["ym"] // c["ay"], c["xm"] // c["ax"]
     ny, nx = c["ny"], c["nx"]
     for prof_kind, prec, src_kind in variants:
-        if c["an"] and prof_kind != "const":
-            prof_kind = "const"
+        if c["an"]:  # the analytic branch is meant for height-independent profiles: isotropic or anisotropic constants
+            prof_kind = "const_aniso" if prof_kind in ("mostm", "aniso") else "const"
         kw = rs.solver_args(c, prof_kind, prec)
         q = rs.source(c, src_kind, rng, j=rng.integers(ny), i=rng.integers(nx))
         extra = dict(profile=prof_kind, precision=prec, source=src_kind, q=q.tolist())
@@ -353,8 +353,8 @@ def replay_symmetry(chk, rs, c, variants):
     rng = _rng(c)
     ny, nx = c["ny"], c["nx"]
     for prof_kind, prec, src_kind in variants:
-        if c["an"] and prof_kind != "const":
-            prof_kind = "const"
+        if c["an"]:  # the analytic branch is meant for height-independent profiles: isotropic or anisotropic constants
+            prof_kind = "const_aniso" if prof_kind in ("mostm", "aniso") else "const"
         kw = rs.solver_args(c, prof_kind, prec)
         q = rs.source(c, src_kind, rng, j=rng.integers(ny), i=rng.integers(nx))
         extra = dict(profile=prof_kind, precision=prec, source=src_kind, q=q.tolist())
@@ -417,8 +417,8 @@ def replay_mirror(chk, rs, c, variants):
     rng = _rng(c)
     ny, nx = c["ny"], c["nx"]
     for prof_kind, prec, src_kind in variants:
-        if c["an"] and prof_kind != "const":
-            prof_kind = "const"
+        if c["an"]:  # the analytic branch is meant for height-independent profiles: isotropic or anisotropic constants
+            prof_kind = "const_aniso" if prof_kind in ("mostm", "aniso") else "const"
         kw = rs.solver_args(c, prof_kind, prec)
         q = rs.source(c, src_kind, rng, j=rng.integers(ny), i=rng.integers(nx))
         extra = dict(profile=prof_kind, precision=prec, source=src_kind, q=q.tolist())
@@ -447,8 +447,8 @@ def replay_levels(chk, rs, c, variants):
     rng = _rng(c)
     lv = list(c["lv"])
     for prof_kind, prec, src_kind in variants:
-        if c["an"] and prof_kind != "const":
-            prof_kind = "const"
+        if c["an"]:  # the analytic branch is meant for height-independent profiles: isotropic or anisotropic constants
+            prof_kind = "const_aniso" if prof_kind in ("mostm", "aniso") else "const"
         kw = rs.solver_args(c, prof_kind, prec)
         z = kw["z"]
         q = rs.source(c, src_kind, rng, j=rng.integers(c["ny"]), i=rng.integers(c["nx"]))
@@ -496,8 +496,8 @@ def replay_shape(chk, rs, c, variants):
     g = c["geom"]
     ny, nx = c["ny"], c["nx"]
     for prof_kind, prec, src_kind in variants[:2]:
-        if c["an"] and prof_kind != "const":
-            prof_kind = "const"
+        if c["an"]:  # the analytic branch is meant for height-independent profiles: isotropic or anisotropic constants
+            prof_kind = "const_aniso" if prof_kind in ("mostm", "aniso") else "const"
         kw = rs.solver_args(c, prof_kind, prec)
         q = rs.source(c, src_kind, rng, j=rng.integers(ny), i=rng.integers(nx))
         extra = dict(profile=prof_kind, precision=prec, source=src_kind, q=q.tolist())
